@@ -238,10 +238,11 @@ extern "C" int engineexport_initialize_grid (
     if     (CompareStr(init_state_processing, "Poisson"))
       {
       std::mt19937 rng(seed);
+      std::vector<double> mesh_state_mf = SpeciesFirstToMeshFirstArray(MkVec<double, double>(mesh_state, n_meshes*n_species), n_species, n_meshes);
       mesh_x.resize(n_meshes*n_species);
       for(size_t i=0; i<mesh_x.size(); i++)
         {
-        mesh_x[i] = static_cast<double>(std::poisson_distribution<int>(mesh_state[i])(rng));
+        mesh_x[i] = static_cast<double>(std::poisson_distribution<int>(mesh_state_mf[i])(rng));
         }
       }
     else if(CompareStr(init_state_processing, "floor"))
@@ -369,10 +370,11 @@ extern "C" int engineexport_initialize_graph (
     if     (CompareStr(init_state_processing, "Poisson"))
       {
       std::mt19937 rng(seed);
+      std::vector<double> mesh_state_mf = SpeciesFirstToMeshFirstArray(MkVec<double, double>(mesh_state, n_meshes*n_species), n_species, n_meshes);
       mesh_x.resize(n_meshes*n_species);
       for(size_t i=0; i<mesh_x.size(); i++)
         {
-        mesh_x[i] = static_cast<double>(std::poisson_distribution<int>(mesh_state[i])(rng));
+        mesh_x[i] = static_cast<double>(std::poisson_distribution<int>(mesh_state_mf[i])(rng));
         }
       }
     else if(CompareStr(init_state_processing, "floor"))
